@@ -14,8 +14,9 @@ func c07Tags(entry string, n []uint64, f []string) string {
 	prefix := []string{}
 	switch entry {
 	case "cookie": // cookie <fresh> <cookie> <hmac>: CookieManager.Validate on an AC-Cookie from the wire (fixed key, MAC, VLANs)
+		// cookie <fresh>,<svlan>,<cvlan> <cookie> <hmac> <mac>
 		cm := &CookieManager{secret: []byte("c07-cookie-secret"), ttl: time.Hour}
-		return c07Ok(c07Bool(cm.Validate(data, net.HardwareAddr{0xaa, 0xbb, 0xcc, 0, 0, 1}, 100, 0)))
+		return c07Ok(c07Bool(cm.Validate(data, net.HardwareAddr(c07Arg(f, 2)), uint16(c07Num(n, 1)), uint16(c07Num(n, 2)))))
 	case "bldtags": // bldtags <type,...> <value> ...: TagBuilder output fed to ParseTags
 		b := NewTagBuilder()
 		for i, ty := range n {
